@@ -577,6 +577,15 @@ func VerifC01Batch(v *vrt.T) {
 				}
 			}
 			v.Assert(len(begin.Tags()) == 1, "received batch not modified")
+			bt := fb.Tags()
+			switch cfg.augment {
+			case 1:
+				v.Assert(len(bt) == 3 && bt["host"] == "a" && bt["lt"] == verifC01LevelText[wantLevel] && bt["it"] == verifC01ID, "forwarded batch tags = group tags + levelTag/idTag")
+			case 3:
+				v.Assert(len(bt) == 2 && bt["host"] == "a" && bt["it"] == verifC01ID, "forwarded batch tags = group tags + idTag")
+			default:
+				v.Assert(len(bt) == 1 && bt["host"] == "a", "forwarded batch tags = group tags")
+			}
 		}
 	}
 	v.Assert(diag.errors == 0, "no evaluation errors logged")
